@@ -1071,6 +1071,12 @@ MUTANTS = [
       "        f = lambda x: x.accepted or not states.is_completed(x.state)",
       "        f = lambda x: (x.accepted or states.is_running(x.state) or\n"
       "                       states.is_idle(x.state))"),
+    m('C14-jinja-recursion-error-not-converted', 'C14', ['R3'],
+      'mistral/expressions/jinja_expression.py',
+      "        except RecursionError:\n"
+      "            # The Jinja parser is recursive",
+      "        except MemoryError:\n"
+      "            # The Jinja parser is recursive"),
 ]
 
 
